@@ -6,6 +6,10 @@ props = [json.loads(l) for l in open(os.path.join(V, "properties.jsonl"))]
 SEQ_NOTE = ("trusted: gcc/ASan/UBSan, the reference model in seq/, the harness stubs that replace only I/O callbacks and "
             "_exit; the code under test is the real translation unit rebuilt from /repo's working tree")
 CHECKS = {
+ "C15": dict(engine="SEQ", category="exploration", design_ref="4/C15",
+             technique="exhaustive evaluation of the real squareroot() for all 2^32 ages, nextretry() on a dense grid, and DFS over every insert/delmin sequence (depth<=8 quick, <=10 thorough) on the real prioq.c against a multiset reference",
+             text="The arithmetic facts are decided for the complete 32-bit domain; the heap is explored over all operation sequences up to the depth, which includes every heap shape of up to depth elements; the daemon-level schedule under a virtual clock is the VK part (added when that engine serves this property).",
+             note=SEQ_NOTE),
  "C05": dict(engine="SEQ", category="exploration", design_ref="4/C05",
              technique="bounded-exhaustive enumeration of every byte stream over {CR,LF,'.',a[,R|SP]} (length<=10 quick, <=12 thorough) and every read chunking through the real blast()/commands() of qmail-smtpd.c against an RFC 5321 reference receiver; every message through a reference sender and the real qmail-remote encoder into the real decoder",
              text="All strings of the bounded space are executed on the real decoder (function level and through the real command loop), so within the bound the for-all-inputs statement is decided, not sampled; the recogniser has 5 states and looks at one byte at a time, so length 10-12 over the 4 relevant byte classes exercises every state/byte transition in every context.",
